@@ -1,0 +1,24 @@
+//go:build verif
+// +build verif
+
+package par2
+
+import "hash/crc32"
+
+// VerifRollingCRC32 returns the CRC-32 of every window of windowSize
+// bytes of data, in order of offset, computed the way the slice
+// search computes it: the first window directly, every further one
+// with crc32Window.update.
+func VerifRollingCRC32(windowSize int, data []byte) []uint32 {
+	if len(data) < windowSize {
+		return nil
+	}
+	w := newCRC32Window(windowSize)
+	crc := crc32.ChecksumIEEE(data[:windowSize])
+	out := []uint32{crc}
+	for i := 0; i+windowSize < len(data); i++ {
+		crc = w.update(crc, data[i], data[i+windowSize])
+		out = append(out, crc)
+	}
+	return out
+}
